@@ -67,6 +67,8 @@ def gen_mk_snaps(w, rng):
         "mask": [1] * ndim if allper else [rng.choice([0, 1]) for _ in range(ndim)],
         "subseed": rng.randrange(1 << 40),
     }
+    if rng.random() < 0.3:
+        rec["mem"] = rng.choice(["F", "strided", "f32"])
     return {"op": "mk_snaps", "recipe": rec}
 
 
@@ -122,11 +124,29 @@ def build_bundle(rec):
         s = s - np.floor(s)
         return s @ h + origin
 
+    mem = rec.get("mem", "C")
+
+    def store(p):
+        """How the caller holds the coordinates: row-major float64 (what the LAMMPS readers
+        return), column-major, a strided view into a wider table, single precision (what the
+        HOOMD converters return) - aliasing through asarray / astype(copy=False) / ravel /
+        reshape depends on it."""
+        p = np.ascontiguousarray(p)
+        if mem == "F":
+            return np.asfortranarray(p)
+        if mem == "strided":
+            wide = np.zeros((p.shape[0], 2 * p.shape[1] + 1))
+            wide[:, ::2][:, : p.shape[1]] = p
+            return wide[:, ::2][:, : p.shape[1]]
+        if mem == "f32":
+            return p.astype(np.float32)
+        return p
+
     def mk(frames):
         snaps = []
         for t, p in enumerate(frames):
             snaps.append(SingleSnapshot(
-                timestep=steps[t], nparticle=N, particle_type=types.copy(), positions=np.ascontiguousarray(p),
+                timestep=steps[t], nparticle=N, particle_type=types.copy() if mem != "f32" else types.astype(np.uint32) + 0, positions=store(p),
                 boxlength=L.copy(), boxbounds=bounds.copy(), realbounds=None if real is None else real.copy(),
                 hmatrix=h.copy()))
         return Snapshots(nsnapshots=T, snapshots=snaps)
